@@ -721,6 +721,13 @@ class Executor(object):
                     sub.module = ca[0].module
                     sub.spec = True
                     return [(st, self.ev1(sub, ca[1]))]
+            if v.kind == 'excinst':
+                # attributes of a caught exception: errno is an unknown int (fixed per instance), the rest opaque
+                store = v.__dict__.setdefault('_attrs', {})
+                if attr not in store:
+                    store[attr] = VInt(z3.Int(uid('errno'))) if attr in ('errno', 'code', 'winerror') else \
+                        VOpaque(name='exc_' + attr)
+                return [(st, store[attr])]
             if v.kind == 'extern':
                 full = '%s.%s' % (v.target, attr)
                 if full in self.B.EXTERNS:
@@ -1511,6 +1518,15 @@ class Executor(object):
         return [(st, (NEXT, None))]
 
     def ex_ImportFrom(self, st, stmt):
+        # function-local import: bind the names like the module-level table would
+        mod = stmt.module or ''
+        if stmt.level:
+            base = st.module.name.split('.')
+            base = base[:len(base) - stmt.level]
+            mod = '.'.join(base + ([mod] if mod else []))
+        for a in stmt.names:
+            v = self.module_attr(st, mod, a.name)
+            st.env[a.asname or a.name] = v
         return [(st, (NEXT, None))]
 
     def ex_Return(self, st, stmt):
